@@ -44,7 +44,28 @@ theorem never_internal (n t : Nat) (hn : 1 ≤ n) (ht : 1 ≤ t) (ops : List Op)
         | none => simp
         | some p => simp
       | fetch => simp only [sstep]; cases FES.fetch st.1 <;> simp
+      | peek => simp [sstep]
   exact this ops _
+
+/-- **`next_time()` announces exactly the timestamp the next `fetch_next` returns** and changes
+    nothing (it is what the runtime tests its limit against, C10/C11). -/
+theorem peek_agrees_with_fetch (n t : Nat) (hn : 1 ≤ n) (ht : 1 ≤ t) (ops : List Op) :
+    (mstep (mrun n t ops).1 .peek).1 = (mrun n t ops).1 ∧
+    (mstep (mrun n t ops).1 .peek).2 = .peeked (FES.nextTime (srun ops).1.1) ∧
+    (match (mstep (mrun n t ops).1 .fetch).2 with
+     | .fetched _ tm => FES.nextTime (srun ops).1.1 = some tm
+     | .empty => FES.nextTime (srun ops).1.1 = none
+     | _ => False) := by
+  have h := (model_refines_spec n t hn ht ops).2
+  refine ⟨rfl, ?_, ?_⟩
+  · simp only [mstep]; rw [CQ.nextTime_refines h.r]
+  · rw [(step_refines h .fetch).1]
+    simp only [sstep, FES.fetch, FES.nextTime]
+    cases hz : (srun ops).1.1.zero with
+    | cons e z => simp
+    | nil =>
+      simp only
+      cases hm : FES.minEv (srun ops).1.1.pend <;> simp
 
 /-- Outputs do not depend on the queue parameters. -/
 theorem config_independent (n t n' t' : Nat) (hn : 1 ≤ n) (ht : 1 ≤ t) (hn' : 1 ≤ n')
